@@ -48,6 +48,16 @@ def run(tier, seed, replay=None):
         keys = ["request.target.host", "request.source.host", "to_string(request.target.port)", "strcat([request.listener, request.target.host])"]
         tg = ["D%s:%d" % (("host%d.example" % i).encode().hex(), 80 + i % 3) for i in range(6)]
         cases.append(dict(kind="hash", members=members, count=24, tasks=1, algo="{hashBy: '%s'}" % r.choice(keys), targets=tg))
+        if n >= 2:
+            # the key is the request's target itself: the same destination text in its two internal forms (socket address
+            # / host name that happens to be an IP literal) is the same key value
+            tg2 = []
+            for i in range(8):
+                ip = "10.%d.0.%d" % (i, 7 + i)
+                port = 443 + i
+                tg2.append("4%s:%d" % ("".join("%02x" % int(x) for x in ip.split(".")), port))
+                tg2.append("D%s:%d" % (ip.encode().hex(), port))
+            cases.append(dict(kind="hash-obj", members=members, count=32, tasks=1, algo="{hashBy: 'request.target'}", targets=tg2))
         cases.append(dict(kind="random", members=members, count=60 * len(members) if tier == "quick" else 200 * len(members), tasks=1, algo="random", targets=[q[2]]))
     cases.append(dict(kind="bad-empty", members=[], count=1, tasks=1, algo=None, targets=[q[2]]))
     cases.append(dict(kind="bad-unknown", members=["m0", "zz"], count=1, tasks=1, algo=None, targets=[q[2]]))
@@ -110,6 +120,15 @@ def run(tier, seed, replay=None):
                     by_target.setdefault(key, set()).add(p)
                 if any(len(v) > 1 for v in by_target.values()):
                     bad = "hash-by: the same request key was sent to different members: %s" % {k[:20]: sorted(v) for k, v in by_target.items() if len(v) > 1}
+            elif c["kind"] == "hash-obj":
+                by_key = {}
+                for i, p in enumerate(picks):
+                    t = c["targets"][i % len(c["targets"])]
+                    hostpart, port = t[1:].rsplit(":", 1)
+                    text = (".".join(str(int(hostpart[j:j + 2], 16)) for j in range(0, 8, 2)) if t[0] == "4" else bytes.fromhex(hostpart).decode()) + ":" + port
+                    by_key.setdefault(text, set()).add(p)
+                if any(len(v) > 1 for v in by_key.values()):
+                    bad = "hash-by request.target: requests whose key evaluates to the same text were sent to different members: %s" % {k: sorted(v) for k, v in by_key.items() if len(v) > 1}
             elif c["kind"] == "random":
                 if set(picks) != set(c["members"]):
                     bad = "random never selected %s in %d draws" % (sorted(set(c["members"]) - set(picks)), len(picks))
